@@ -94,8 +94,9 @@ def run(ctx):
                               ("FuncBitShiftRight", False), ("FuncBitAnd", False), ("FuncBitOr", False),
                               ("FuncBitXor", False)):
         m = model.method(P, cname, "execute")
-        ret = m.node.body[-1]
-        ok = isinstance(ret, ast.Return) and isinstance(ret.value, ast.Call) and norm(ret.value.func) == "ValueInt"
+        rets = [r for r in ast.walk(m.node) if isinstance(r, ast.Return) and r.value is not None]
+        ret = rets[-1] if rets else m.node.body[-1]
+        ok = len(rets) == 1 and isinstance(ret.value, ast.Call) and norm(ret.value.func) == "ValueInt"
         arg = ret.value.args[0] if ok and ret.value.args else None
         if needs_mask:
             ok = ok and arg is not None and masked(arg)
